@@ -605,7 +605,8 @@ class Prop(fw.PropBase):
                     '(options, library); non-trivial = the call returned a non-empty table',
             'libraries': len(libs), 'records': nreads, 'result_histogram': hist, 'option_histogram': opt_hist,
             'cell_denominator_histogram': dict(sorted(weights.items(), key=lambda x: int(x[0]))),
-            'exhaustive': ('all 2^%d combinations of %s on the fixed %d-record library (%d calls)'
+            'exhaustive': False,
+            'exhaustive_scope': ('all 2^%d combinations of %s on the fixed %d-record library (%d calls)'
                            % (len(BOOL_OPTS) + 3, BOOL_OPTS + ['minMQ', 'max_base_edits', 'blacklist'],
                               len(fixed_lib()['reads']), self.n_exhaustive)) if self.n_exhaustive else False,
             'corpus_cases': len(ccases),
